@@ -142,15 +142,62 @@ def execute(case):
     return {"ok": not fails, "failures": fails, "outcome": f"{tc}:{'ok' if not fails else fails[0]['sig']['kind']}", "nontrivial": True}
 
 
+def execute_large(case):
+    """realistically sized images (>= 1 MiB per chunk at the default rpc): size-dependent code paths"""
+    tc, L, P, rpc = case["type"], case["L"], case["P"], case["rpc"]
+    word = ">u2" if tc == "IU2" else ">u4"
+    n = P if tc == "IU2" else 2 * P
+    rng = np.random.default_rng(case.get("seed", 0) + L)
+    m = rng.integers(0, 2**16 if tc == "IU2" else 2**31, size=(L, n), dtype="int64")
+    if tc != "IU2":
+        m = (m & 0x7F7FFFFF) | ((m & 1) << 31)  # finite float32 patterns of both signs
+    m = m.astype(word)
+    raw = [m[k].tobytes() for k in range(L)]
+    spec = synth.product_spec("1.1" if tc == "C*8" else "1.5", images=[synth.image_spec("HH", None, L, P, tc, samples=raw)])
+    files, _ = synth.build(spec)
+    fails = []
+    view = "=u2" if tc == "IU2" else "=u4"
+    want = m.astype(view)
+    with harness.Product(files, case["fs"]) as prod:
+        tree = prod.open(**({"records_per_chunk": rpc} if rpc else {}))
+        var = tree["imagery/HH/data"]
+        sels = [("full", slice(None)), ("line 0", 0), ("middle line", L // 2), ("last line", L - 1), ("window of 5", slice(L // 3, L // 3 + 5)), ("every 16th", slice(None, None, 16)), ("every 2nd", slice(None, None, 2)), ("first half", slice(0, L // 2)), ("last 3", slice(L - 3, None)), ("full again", slice(None))]
+        for label, sel in sels:
+            got = np.ascontiguousarray(np.asarray(var.isel(rows=sel).values)).view(view)
+            exp = want[sel]
+            if got.reshape(-1).shape != exp.reshape(-1).shape or not np.array_equal(got.reshape(-1), exp.reshape(-1)):
+                fails.append({"sig": {"kind": "large-image-value", "type": tc}, "detail": f"{tc} {L}x{P} rpc={rpc or 'default'} on {case['fs']}: selection '{label}' differs from the file"})
+                break
+        for label, rsel, csel in (("line + pixel window", L // 2, slice(P // 2, P // 2 + 7)), ("window + pixel", slice(5, 9), P - 1)):
+            got = np.ascontiguousarray(np.asarray(var.isel(rows=rsel, columns=csel).values))
+            full = want if tc == "IU2" else want.reshape(L, P, 2)
+            exp = full[rsel, csel]
+            if not np.array_equal(got.view(view).reshape(-1), np.ascontiguousarray(exp).reshape(-1)):
+                fails.append({"sig": {"kind": "large-image-value", "type": tc}, "detail": f"{tc} {L}x{P} rpc={rpc or 'default'}: selection '{label}' differs from the file"})
+    return {"ok": not fails, "failures": fails, "outcome": f"large:{tc}:{'ok' if not fails else 'value'}", "nontrivial": True}
+
+
+def large_plan(tier):
+    cases = []
+    for tc, L, P in (("IU2", 640, 1000), ("C*8", 320, 600)):
+        for rpc in (None, 64, 1000):
+            for fs in ("mcfs", "local") if tier == "quick" else harness.FS_KINDS:
+                cases.append({"type": tc, "L": L, "P": P, "rpc": rpc, "fs": fs})
+    return cases
+
+
 def run(res, tier, seed):
     res.rule = (
         "full cross product geometry(L<=4|6 x P<=4) x type x rpc{1..L+2,1024,1e9} x filesystem{mcfs+storage_options,"
         "local path,file://,memory://} with position-coded samples, plus every (real,imag) pair of 13 float32 bit"
         " patterns / every uint16 pattern rotated over all pixel positions; a case is one product of up to 8 images;"
-        " every case loads pixels, so all are non-trivial; distinct = distinct case tuples"
+        " every case loads pixels, so all are non-trivial; distinct = distinct case tuples; plus realistically sized images (640x1000 IU2,"
+        " 320x600 C*8: > 1 MiB per chunk at the default rpc) x rpc {default, 64, 1000} with full / single-line / window / strided reads"
     )
     res.assumptions = [
         "signalling-NaN bit patterns are excluded (copy semantics are CPU/NumPy properties)",
         "filesystems: fsspec local, memory and the harness' mcfs protocol",
     ]
     core.run_cases(res, __name__, plan(tier, seed))
+    for idx, case, out in core.pool_map(__name__, "execute_large", [{**c, "seed": seed} for c in large_plan(tier)], chunksize=1):
+        res.record({**case, "fn": "execute_large"}, out, order=10**6 + idx)
